@@ -227,6 +227,50 @@ impl<'ast> Visit<'ast> for ExitCount {
     fn visit_item(&mut self, _i: &'ast syn::Item) {}
 }
 
+/// (C19) functions that read a secret-bearing field (`.api_key`, `.headers` of the provider
+/// configuration types), outside test modules
+struct SecretReaders {
+    cur_fn: Vec<String>,
+    found: BTreeMap<String, u32>,
+}
+
+impl<'ast> Visit<'ast> for SecretReaders {
+    fn visit_item_mod(&mut self, m: &'ast syn::ItemMod) {
+        if m.ident == "tests" || m.attrs.iter().any(|a| a.to_token_stream().to_string().replace(' ', "").contains("cfg(test)")) {
+            return;
+        }
+        syn::visit::visit_item_mod(self, m);
+    }
+    fn visit_item_fn(&mut self, f: &'ast syn::ItemFn) {
+        self.cur_fn.push(f.sig.ident.to_string());
+        syn::visit::visit_item_fn(self, f);
+        self.cur_fn.pop();
+    }
+    fn visit_impl_item_fn(&mut self, f: &'ast syn::ImplItemFn) {
+        self.cur_fn.push(f.sig.ident.to_string());
+        syn::visit::visit_impl_item_fn(self, f);
+        self.cur_fn.pop();
+    }
+    fn visit_expr_field(&mut self, e: &'ast syn::ExprField) {
+        if let syn::Member::Named(i) = &e.member {
+            if i == "api_key" || i == "headers" {
+                let name = self.cur_fn.last().cloned().unwrap_or_else(|| "<top>".into());
+                *self.found.entry(name).or_insert(0) += 1;
+            }
+        }
+        syn::visit::visit_expr_field(self, e);
+    }
+}
+
+const SECRET_FILES: &[&str] = &[
+    "crates/ripd/src/config.rs",
+    "crates/ripd/src/server.rs",
+    "crates/ripd/src/session.rs",
+    "crates/ripd/src/provider_openresponses.rs",
+    "crates/ripd/src/runner.rs",
+    "crates/ripd/src/openresponses_observability.rs",
+];
+
 fn lock_id_of_guard(guard: &str) -> u32 {
     match guard {
         "guard" => 1,
@@ -930,6 +974,29 @@ fn main() {
     lean.push_str(&format!("/-- File::create / set_len / seek / fs::write / remove_file / rename / truncate inside impl EventLog -/\ndef destructiveCalls : Nat := {}\n\n", log_fx.destructive));
     lean.push_str("end Rip.Gen.LogEffects\n");
     write_if_changed(&out.join("LogEffects.lean"), &lean);
+
+    // secret readers (C19)
+    let mut readers = SecretReaders { cur_fn: Vec::new(), found: BTreeMap::new() };
+    for f in SECRET_FILES {
+        match load(f, &mut parsed) {
+            Ok(()) => readers.visit_file(&parsed[*f]),
+            Err(e) => {
+                eprintln!("ripx: {e}");
+                std::process::exit(1);
+            }
+        }
+    }
+    let mut lean = String::new();
+    lean.push_str("/- GENERATED by ripx from ripd/src/{config,server,session,provider_openresponses,runner,openresponses_observability}.rs. Do not edit. -/\nnamespace Rip.Gen.SecretReaders\n\n");
+    lean.push_str("/-- functions (outside test modules) that read the field `.api_key` or `.headers`: (FNV-1a 64 of the function name, number of reads) -/\n");
+    lean.push_str("def readers : List (Nat × Nat) := [\n");
+    let items: Vec<String> = readers.found.iter().map(|(n, c)| format!("  ({}, {c}) -- {n}", fnv64(n.as_bytes()))).collect();
+    for (i, it) in items.iter().enumerate() {
+        let (a, b) = it.split_once(" -- ").unwrap();
+        lean.push_str(&format!("{a}{} -- {b}\n", if i + 1 < items.len() { "," } else { "" }));
+    }
+    lean.push_str("]\n\nend Rip.Gen.SecretReaders\n");
+    write_if_changed(&out.join("SecretReaders.lean"), &lean);
 
     if let Some(p) = json_out {
         let v: Value = json!({
